@@ -853,3 +853,127 @@ add('C11', 'twin', 'nested-ctx-temp', [(P, '''        vdoc = pretty_python_value
             ),
         )''', '''        value_ctx = ctx.nested_call().use_multiline_strategy(MULTILINE_STRATEGY_INDENTED)
         vdoc = pretty_python_value(v, ctx=value_ctx)''')])
+
+# ----------------------------------------------------------------------------- C12
+add('C12', 'breaker', 'list-elements-printed-twice', [(P, '''    if trailing_comment:
+        els = chain(els, [commentdoc(trailing_comment)])
+        dangle = False
+''', '''    if trailing_comment:
+        els = chain(els, [commentdoc(trailing_comment)])
+        dangle = False
+    elif len(value) == 1:
+        sole_doc = pretty_python_value(sole_value, ctx=ctx.nested_call())
+''')], 'C12.a')
+add('C12', 'breaker', 'flatchoice-eager-normalize', [(D, '''        return FlatChoice(
+            self._when_broken,
+            self._when_flat,
+            normalize_on_access=True
+        )''', '''        return FlatChoice(
+            normalize_doc(self._when_broken),
+            normalize_doc(self._when_flat),
+            normalize_on_access=True
+        )''')], 'C12.a')
+add('C12', 'breaker', 'concat-normalises-twice', [(D, '''        for doc in self.docs:
+            doc = normalize_doc(doc)
+            if isinstance(doc, Concat):
+                normalized_docs.extend(doc.docs)''', '''        for doc in self.docs:
+            doc = normalize_doc(doc)
+            if isinstance(doc, Concat):
+                normalized_docs.extend(normalize_doc(doc).docs)''')], 'C12.a')
+add('C12', 'breaker', 'accessor-renormalises', [(D, '''        if self.normalize_on_access and not self._broken_normalized:
+            self._when_broken = normalize_doc(self._when_broken)
+            self._broken_normalized = True''', '''        if self.normalize_on_access:
+            self._when_broken = normalize_doc(self._when_broken)''')], 'C12.a')
+add('C12', 'breaker', 'width-floor-removed', [(P, '''        each_line_max_str_len = max(
+            each_line_ends_on_col - each_line_starts_on_col - 2,
+            # If we're printing the string inside a highly nested data
+            # structure, we may naturally run out of available width.
+            # In these cases, we need to give some space for printing
+            # such that we don't get stuck in an infinite loop when
+            # str_to_lines is called.
+            8 + len('""')
+        )''', '''        each_line_max_str_len = each_line_ends_on_col - each_line_starts_on_col - 2''')], 'C12.c')
+add('C12', 'breaker', 'for-over-cycle', [(P, '''        for idx, tup in enumerate(zip(alternating_words_ws, cycle([False, True]))):''', '''        for idx, tup in enumerate(zip(cycle(alternating_words_ws), cycle([False, True]))):''')], 'C12.b')
+add('C12', 'breaker', 'unwrap-loop-no-progress', [(P, '''        elif isinstance(value, _TrailingCommentedValue):
+            trailing_comment = value.comment
+            value = value.value''', '''        elif isinstance(value, _TrailingCommentedValue):
+            trailing_comment = value.comment''')], 'C12.b')
+add('C12', 'breaker', 'splitter-no-progress-branch', [(P, '''        else:
+            curr_line_parts.append(next_part)
+            next_part = None
+            next_is_whitespace = None
+
+    if curr_line_parts:''', '''        else:
+            curr_line_parts.append(next_part)
+
+    if curr_line_parts:''')], 'C12.b')
+add('C12', 'breaker', 'shortcut-depends-on-indent', [(P, '''        len(docs)  # each element must take at least one character
+    )''', '''        len(docs) * ctx.indent  # each element must take at least one character
+    )''')], 'C12.d')
+add('C12', 'twin', 'floor-as-constant', [(P, "            8 + len('\"\"')\n        )", "            10\n        )")])
+
+# ----------------------------------------------------------------------------- C07
+add('C07', 'breaker', 'timezone-private-attrs', [(S, '''    offset = tz.utcoffset(None)
+    name = tz.tzname(None)''', '''    offset = tz._offset
+    name = tz._name''')], 'C07.a')
+add('C07', 'breaker', 'deque-private-maxlen', [(S, "        kwargs.append(('maxlen', value.maxlen))", "        kwargs.append(('maxlen', value._maxlen))")], 'C07')
+add('C07', 'breaker', 'datetime-forgets-fold', [(S, '''    # Doesn't exist before Python 3.6
+    if getattr(dt, 'fold', None):
+        kwargs.append(('fold', 1))
+''', '')], 'C07.b')
+add('C07', 'breaker', 'time-forgets-tzinfo', [(S, '''    additional_kws = []
+    if value.tzinfo is not None:
+        additional_kws.append(('tzinfo', value.tzinfo))
+''', '''    additional_kws = []
+''')], 'C07.b')
+add('C07', 'breaker', 'deque-forgets-maxlen', [(S, '''    kwargs = []
+    if value.maxlen is not None:
+        kwargs.append(('maxlen', value.maxlen))
+''', '''    kwargs = []
+''')], 'C07.b')
+add('C07', 'breaker', 'defaultdict-forgets-factory', [(S, 'args=(d.default_factory, dict(d))', 'args=(None, dict(d))')], 'C07.b')
+add('C07', 'breaker', 'time-crosswired-fold', [(S, "additional_kws.append(('fold', value.fold))", "additional_kws.append(('fold', value.microsecond))")], 'C07.c')
+add('C07', 'breaker', 'date-args-order', [(S, 'args=(value.year, value.month, value.day)', 'args=(value.year, value.day, value.month)')], 'C07.c')
+add('C07', 'breaker', 'counter-prints-dict', [(S, '''    return pretty_call_alt(
+        ctx,
+        type(counter),
+        args=(dict(counter.most_common()), ),
+    )''', '''    return pretty_call_alt(
+        ctx,
+        dict,
+        args=(dict(counter.most_common()), ),
+    )''')], 'C07.d')
+add('C07', 'breaker', 'new-assert-in-printer', [(S, '''def pretty_date(value, ctx):
+    return''', '''def pretty_date(value, ctx):
+    assert value.year >= 1900
+    return''')], 'C07.e')
+add('C07', 'breaker', 'blank-comment-line-index-again', [(P, '''        if not alternating_words_ws:
+            # A blank line in the comment text.
+            commentlines.append('#')
+            continue
+
+''', '')], 'C07.e')
+add('C07', 'breaker', 'struct-seq-no-fallback', [(P, '''            try:
+                return pretty_cnamedtuple(
+                    value,
+                    ctx,
+                    trailing_comment=trailing_comment
+                )
+            except Exception:
+                pass  # render as a normal tuple''', '''            return pretty_cnamedtuple(
+                value,
+                ctx,
+                trailing_comment=trailing_comment
+            )''')], 'C07')
+add('C07', 'breaker', 'timedelta-forgets-microseconds', [(S, '    microseconds = pos_delta.microseconds\n', '    microseconds = 0\n')], 'C07.b')
+add('C07', 'twin', 'timezone-getinitargs', [(S, '''    offset = tz.utcoffset(None)
+    name = tz.tzname(None)
+    if name == timezone(offset).tzname(None):
+        # The name is the one generated from the offset.
+        return pretty_call_alt(ctx, timezone, args=(offset, ))
+    return pretty_call_alt(ctx, timezone, args=(offset, name))''', '''    offset = tz.utcoffset(None)
+    zone_name = tz.tzname(None)
+    default_name = timezone(offset).tzname(None)
+    if zone_name == default_name:
+        return pretty_call_alt(ctx, timezone, args=(offset, ))
+    return pretty_call_alt(ctx, timezone, args=(offset, zone_name))''')])
